@@ -60,7 +60,7 @@ def chain(routes, i, cur, tail):
     if r == "capture":
         return f"var &c{n} = {cur}; fun[c{n}]() {{ " + nxt(f"c{n}") + " }()"
     if r == "idf":
-        return nxt(f"idf({cur})")
+        return nxt(f"c7_idf({cur})")
     if r == "retlam":
         return nxt(f"fun(q{n}) {{ return q{n} }}({cur})")
     if r == "tern":
